@@ -3,6 +3,7 @@ CONSTANTS
   W = 8
   NLines = 1
   VefType = 0
+  Kinds = {"const", "halves", "noise", "same", "poke", "stripes"}
   PalSet = {0}
   Vals = {1, 7}
   Strategies = {"raw", "prefer-left", "prefer-up", "literal", "alternate"}
